@@ -973,7 +973,8 @@ def i_SHL(i, fmap):
         if count.value == 0:
             return
         if count.value == 1:
-            fmap[of] = x.bit(-1) ^ fmap(cf)
+            # MSB of the result xor the bit shifted out (the new CF)
+            fmap[of] = x.bit(-1) ^ a.bit(-1)
         else:
             fmap[of] = top(1)
         if count.value <= a.size:
@@ -1010,7 +1011,8 @@ def i_ROL(i, fmap):
             return
         fmap[cf] = x.bit(0)
         if count.value == 1:
-            fmap[of] = x.bit(-1) ^ fmap(cf)
+            # MSB of the result xor the bit shifted out (the new CF)
+            fmap[of] = x.bit(-1) ^ a.bit(-1)
         else:
             fmap[of] = top(1)
     else:
@@ -1066,7 +1068,8 @@ def i_RCL(i, fmap):
             return
         fmap[cf] = carry
         if count.value == 1:
-            fmap[of] = x.bit(-1) ^ fmap(cf)
+            # MSB of the result xor the bit shifted out (the new CF)
+            fmap[of] = x.bit(-1) ^ a.bit(-1)
         else:
             fmap[of] = top(1)
     else:
